@@ -402,6 +402,31 @@ def _root_name(node):
     return node.id if isinstance(node, ast.Name) else None
 
 
+def _flatten_targets(t):
+    if isinstance(t, (ast.Tuple, ast.List)):
+        for e in t.elts:
+            yield from _flatten_targets(e)
+    elif isinstance(t, ast.Starred):
+        yield from _flatten_targets(t.value)
+    else:
+        yield t
+
+
+def _store_targets(n):
+    """the expressions a node stores into (or deletes), tuple unpacking flattened"""
+    raw = []
+    if isinstance(n, ast.Assign):
+        raw = list(n.targets)
+    elif isinstance(n, (ast.AugAssign, ast.AnnAssign, ast.NamedExpr, ast.For, ast.AsyncFor)):
+        raw = [n.target]
+    elif isinstance(n, (ast.With, ast.AsyncWith)):
+        raw = [i.optional_vars for i in n.items if i.optional_vars is not None]
+    elif isinstance(n, ast.Delete):
+        raw = list(n.targets)
+    for t in raw:
+        yield from _flatten_targets(t)
+
+
 def extract_py_globals(repo: Path):
     out = []
     files = sorted((repo / 'mahotas').rglob('*.py'))
@@ -434,24 +459,26 @@ def extract_py_globals(repo: Path):
                     declared.update(n.names)
             localnames = {a.arg for a in fn.args.args + fn.args.kwonlyargs}
             for n in ast.walk(fn):
-                if isinstance(n, (ast.Assign, ast.AugAssign)):
-                    for t in (n.targets if isinstance(n, ast.Assign) else [n.target]):
-                        if isinstance(t, ast.Name) and t.id not in declared:
-                            localnames.add(t.id)
+                for t in _store_targets(n):
+                    if isinstance(t, ast.Name) and t.id not in declared:
+                        localnames.add(t.id)
             # (name -> list of (kind, lineno)) in source order
             events = {}
             for n in ast.walk(fn):
-                if isinstance(n, (ast.Assign, ast.AugAssign)):
-                    for t in (n.targets if isinstance(n, ast.Assign) else [n.target]):
-                        if isinstance(t, ast.Name) and t.id in declared:
-                            events.setdefault(t.id, []).append(('rebind', n.lineno, n))
-                        elif isinstance(t, (ast.Subscript, ast.Attribute)):
-                            r = _root_name(t)
-                            if r and r not in localnames and (r in declared or r in modnames):
-                                events.setdefault(r, []).append(('mutate', n.lineno, n))
-                elif isinstance(n, ast.Call) and isinstance(n.func, ast.Attribute) and n.func.attr in _MUTATORS:
+                # every statement form that binds or deletes a name / stores into a container: plain, augmented,
+                # annotated and tuple-unpacking assignments, `for`/`with … as` targets, walrus, `del`
+                for t in _store_targets(n):
+                    if isinstance(t, ast.Name) and t.id in declared:
+                        events.setdefault(t.id, []).append(('rebind', n.lineno, n))
+                    elif isinstance(t, (ast.Subscript, ast.Attribute)):
+                        r = _root_name(t)
+                        if r and r not in localnames and (r in declared or r in modnames):
+                            events.setdefault(r, []).append(('mutate', n.lineno, n))
+                # in-place mutation through a method, on the global itself or on something reached from it
+                # by subscripts / attributes (`X.append(v)`, `X[k].update(d)`, `X.cache.clear()`)
+                if isinstance(n, ast.Call) and isinstance(n.func, ast.Attribute) and n.func.attr in _MUTATORS:
                     r = _root_name(n.func.value)
-                    if r and r not in localnames and (r in declared or r in modnames) and isinstance(n.func.value, ast.Name):
+                    if r and r not in localnames and (r in declared or r in modnames):
                         events.setdefault(r, []).append(('mutate', n.lineno, n))
             for name, evs in events.items():
                 evs.sort(key=lambda e: e[1])
@@ -477,7 +504,12 @@ def extract_py_globals(repo: Path):
                     argnames.add(fn.args.kwarg.arg)
                 dep = False
                 for e in rebinds:
-                    val = e[2].value
+                    val = getattr(e[2], 'value', None) if isinstance(e[2], (ast.Assign, ast.AnnAssign)) else None
+                    if val is None:
+                        # augmented assignment, loop / with target, walrus, `del`, bare annotation: the value
+                        # published is not one complete, argument-independent object
+                        dep = True
+                        continue
                     for x in ast.walk(val):
                         if isinstance(x, ast.Name) and x.id in argnames:
                             dep = True
